@@ -15,10 +15,51 @@ func monitorCallbacks(w *world.World) (rule, msg string) {
 	type pst struct {
 		state   int // 0 idle, 1 in OnEstablished, 2 established, 3 in handler, 4 in OnClose
 		session int
+		estSeq  int // seq of the OnEstablished.enter of the open session
 	}
 	peers := map[string]*pst{}
 	closedAt := -1               // seq of api:Close.return
 	deleted := map[string]bool{} // peer address deleted (and not re-added)
+	// API call intervals. Two calls that overlap in time may take effect in either order whatever the order
+	// of their return events in the log (a return is logged by the caller some steps after the library
+	// decided), so the order of effects is only inferred from non-overlapping calls.
+	type ival struct {
+		name      string
+		call, ret int // seq; ret = 1<<30 while unreturned
+		ok        bool
+	}
+	var adds []ival
+	delCall := map[int]int{} // seq of a DeletePeer return -> seq of its call
+	{
+		open := map[string]int{} // kind+goroutine -> seq of the pending call
+		for _, ev := range w.Log {
+			if ev.Kind != "api:AddPeer" && ev.Kind != "api:DeletePeer" {
+				continue
+			}
+			k := ev.Kind + "/" + ev.G
+			if ev.Phase == "call" {
+				open[k] = ev.Seq
+				if ev.Kind == "api:AddPeer" {
+					adds = append(adds, ival{name: peerNameOf(ev.Peer), call: ev.Seq, ret: 1 << 30})
+				}
+				continue
+			}
+			c, had := open[k]
+			if !had {
+				c = ev.Seq
+			}
+			delete(open, k)
+			if ev.Kind == "api:DeletePeer" {
+				delCall[ev.Seq] = c
+				continue
+			}
+			for i := range adds {
+				if adds[i].call == c {
+					adds[i].ret, adds[i].ok = ev.Seq, ev.Err == "<nil>"
+				}
+			}
+		}
+	}
 	for _, ev := range w.Log {
 		switch ev.Kind {
 		case "api:Close":
@@ -34,8 +75,19 @@ func monitorCallbacks(w *world.World) (rule, msg string) {
 		case "api:DeletePeer":
 			if ev.Phase == "return" && ev.Err == "<nil>" {
 				name := peerNameOf(ev.Peer)
-				deleted[name] = true
-				if p := peers[name]; p != nil && p.state != 0 {
+				// a successful AddPeer of the same peer that overlaps this DeletePeer took effect after it
+				// (the peer existed): the peer exists again, and callbacks that started after that AddPeer
+				// was called may be the new peer's
+				overlapAdd := -1
+				for _, a := range adds {
+					if a.name == name && a.ok && a.call < ev.Seq && a.ret > delCall[ev.Seq] {
+						overlapAdd = a.call
+					}
+				}
+				if overlapAdd < 0 {
+					deleted[name] = true
+				}
+				if p := peers[name]; p != nil && p.state != 0 && (overlapAdd < 0 || p.estSeq < overlapAdd) {
 					return "onclose-missing-at-return", fmt.Sprintf("DeletePeer returned at #%d while peer %s still has an open callback session (state %d)", ev.Seq, name, p.state)
 				}
 			}
@@ -43,6 +95,13 @@ func monitorCallbacks(w *world.World) (rule, msg string) {
 		case "api:AddPeer":
 			if ev.Phase == "return" {
 				delete(deleted, peerNameOf(ev.Peer))
+			} else {
+				// the new peer may run callbacks before AddPeer returns
+				for _, a := range adds {
+					if a.call == ev.Seq && a.ok {
+						delete(deleted, a.name)
+					}
+				}
 			}
 			continue
 		}
@@ -74,7 +133,7 @@ func monitorCallbacks(w *world.World) (rule, msg string) {
 				}
 				return bad()
 			}
-			p.state, p.session = 1, ev.Session
+			p.state, p.session, p.estSeq = 1, ev.Session, ev.Seq
 		case "OnEstablished.exit":
 			if p.state != 1 {
 				return bad()
